@@ -375,6 +375,10 @@ func buildExpr(t []string) (carapace.Action, []string) {
 			inv := a.Invoke(c)
 			return carapace.Batch(inv.Filter(l...).ToA(), inv.Retain(l...).ToA()).ToA()
 		}), t
+	case "DF": // carapace.Diff(a, b): its result list is built by ranging over a map (determinism stream only, not in the model's grammar)
+		a0 := sub()
+		a1 := sub()
+		return carapace.Diff(a0, a1), t
 	case "B":
 		n := atoi(t[0])
 		t = t[1:]
